@@ -7,7 +7,7 @@ from typing import Dict, List, Optional, Set, Tuple
 from ..cfg import CFG
 from ..core import Ctx
 from ..model import dotted, kwarg, norm, walk_no_nested
-from .common import assigned_value, enclosing, resolve_local
+from .common import assigned_value, enclosing, expand_locals, resolve_local
 
 CMD = "pygamma_cmd"
 # option dest -> (callee suffix, keyword) the value must reach
@@ -137,7 +137,7 @@ def run(ctx: Ctx):
                   key="sink:cat_dissim")
         for v in defs:
             if isinstance(v, ast.Call):
-                ctx.check(len(v.args) == 1 and norm(v.args[0]).endswith(".categories"), "R-C20-3", f, v,
+                ctx.check(len(v.args) == 1 and norm(expand_locals(f.node, v.args[0])).endswith(".categories"), "R-C20-3", f, v,
                           "the categorical dissimilarity is built over the input continuum's categories",
                           bad_detail=f"`{norm(v)}` is not built over the categories of the continuum being measured: the API result for that file "
                                      f"(dissimilarity over ITS categories) differs, e.g. the numerical dissimilarity normalises by the label range of whatever set it is given",
